@@ -69,19 +69,21 @@ class _modules_copyable:
         return cls.__instance__
 
     def __enter__(self):
-        with self.lock:
-            self.refcount += 1
+        cls = type(self)  # State lives on the class (see above).
+        with cls.lock:
+            cls.refcount += 1
             module_reductor = copyreg.dispatch_table.get(ModuleType, MISSING)
             if module_reductor is MISSING:
                 copyreg.dispatch_table[ModuleType] = lambda module: "passthrough"
-                self.patched_table = True
+                cls.patched_table = True
 
     def __exit__(self, *args):
-        with self.lock:
-            self.refcount -= 1
-            if self.patched_table and self.refcount == 0:
+        cls = type(self)
+        with cls.lock:
+            cls.refcount -= 1
+            if cls.patched_table and cls.refcount == 0:
                 del copyreg.dispatch_table[ModuleType]
-                self.patched_table = False
+                cls.patched_table = False
 
 
 @contextlib.contextmanager
